@@ -71,6 +71,18 @@ def gen(ctx, deep):
             for a in ops:
                 for b in ops:
                     jobs.append((cfg, [a, b]))
+        # an adapter attached after construction (flags set while there was none), and ill-sized rules inside batches
+        for is_async in (False, True):
+            lcfg = ec.Config(shape, adapter=True, watcher=None, initial=inits[1], is_async=is_async, late=True)
+            for a in ops:
+                jobs.append((lcfg, [a, ("load", None)]))
+        short = G[0][:-1]
+        cfg0 = ec.Config(shape, adapter=True, watcher=None, initial=inits[0])
+        cfg0.noq = True  # which links exist after a call raised half-way is C04's subject, and outside its domain
+        for bad in ([G[0], short], [short, G[0]], [short]):
+            jobs.append((cfg0, [("addmany", "g", bad)]))
+            jobs.append((cfg0, [("add", "g", G[1]), ("addmany", "g", bad)]))
+        jobs.append((cfg0, [("add", "g", short)]))
         # the async enforcer has its own copies of the internal paths
         acfg = ec.Config(shape, adapter=True, watcher=None, initial=inits[1], is_async=True)
         for a in ops:
@@ -109,7 +121,7 @@ def run(ctx):
 def replay(obj):
     case = obj["case"]
     c = case["config"]
-    cfg = ec.Config(c["shape"], adapter=c["adapter"], watcher=c["watcher"], initial=c["initial"], is_async=c.get("async", False))
+    cfg = ec.Config(c["shape"], adapter=c["adapter"], watcher=c["watcher"], initial=c["initial"], is_async=c.get("async", False), late=c.get("late", False))
     hist = [tuple(o) for o in case["history"]]
     r = common.Result()
     j = judge_factory()
